@@ -84,6 +84,7 @@ def step (st : St) (bl : Block) : St × List String :=
     let ret : List String := match ev with
       | .frame _ _ => ["ret ok"]
       | .bad _ => ["ret bad"]
+      | .reset _ => ["det restarted=true"]       -- a camera reset always restarts detection (`Pipe.item .clear`: `det.reset`)
       | _ => []
     let s' := if (st.steps + 1) % 64 == 0 then compact r.1 else r.1
     ({ st with s := s', steps := st.steps + 1 }, r.2.map showObs ++ ret)
@@ -122,7 +123,7 @@ def monStep (m : MSt) (bl : Block) : MSt × List String :=
   | none => (m, [])
   | some ev =>
     let obs := bl.outs.filterMap parseObs
-    let unparsed := bl.outs.filter (fun o => (parseObs o).isNone && o.head? != some "ret")
+    let unparsed := bl.outs.filter (fun o => (parseObs o).isNone && o.head? != some "ret" && o.head? != some "det")
     let st : Step := { ev := ev, obs := obs }
     let c := m.cfg
     let m12 := M12.step c.K m.m12 st
@@ -142,7 +143,12 @@ def monStep (m : MSt) (bl : Block) : MSt × List String :=
       | .frame _ _ => true
       | .bad _ => (obsOf .test obs).isEmpty
       | _ => (obsOf .const obs).isEmpty && (obsOf .test obs).isEmpty
-    let fq := if quiet then [] else ["C17:recorder-call-outside-frame-processing"]
+    let fq := (if quiet then [] else ["C17:recorder-call-outside-frame-processing"]) ++
+      (match ev with
+       | .reset _ => if bl.outs.contains ["det", "restarted=true"] then [] else
+           ["C15:detector-not-restarted-on-camera-reset-background-not-re-seeded", "C09:detector-not-restarted-on-camera-reset",
+            "C14:camera-reset-marker-did-not-restart-detection"]
+       | _ => [])
     let fails := fq ++ newFails m.m12.fails m12.fails ++ newFails m.m3.fails m3.fails ++ newFails m.m4.fails m4.fails
       ++ newFails m.m12s.fails m12s.fails ++ newFails m.m13.fails m13.fails ++ newFails m.m17.fails m17.fails
       ++ retF ++ (if unparsed.isEmpty then [] else ["C12:unparsed-output"])
